@@ -341,10 +341,70 @@ def r4(ctx):
     # lexical scan for '<' between two identifiers that were declared as pointers is not attempted -- stated in DESIGN.md
 
 
+# attribute stores on a function's own parameters (objects shared with the caller); each confirmed by reading
+REVIEWED_PARAM_STORES = {
+    ("whatshap.__main__.NiceFormatter.format", "record.msg"): "logging only: decorates the message of a log record",
+    ("whatshap.cli.haplotag.main", "args.reference"): "normalises the argparse namespace once, before the run starts",
+    ("whatshap.cli.phase.main", "args.reference"): "normalises the argparse namespace once, before the run starts",
+    ("whatshap.cli.phase.validate", "args.row_limit"): "fills an argparse default once, before the run starts",
+    ("whatshap.vcf.PhasedVcfWriter._set_PS", "call.phased"): "the per-call phase encoding (C04.R2), not shared state",
+}
+
+
+def r5(ctx):
+    """Shared objects are not mutated by the code that is run per sample / per block / per chromosome:
+    a store to an attribute of a parameter changes the caller's object, so later iterations (whose order may
+    depend on the hash seed or on the thread schedule) see a different configuration."""
+    n = 0
+    for q, fi in sorted(ctx.prog.functions.items()):
+        if fi.module.kind not in ("py", "pyx") or fi.module.name.endswith("#pxd") or fi.module.name in ("whatshap.testhelpers",):
+            continue
+        params = set(util.params_of(fi.node)) - {"self", "cls"}
+        for st in util.store_sites(fi.node):
+            if st.kind not in ("attr", "del-attr") or st.root not in params:
+                continue
+            if st.root == "args" and fi.name in ("main", "validate"):
+                # argparse namespace clean-up, once, before the command runs (idiom of every cli module)
+                n += 1
+                continue
+            n += 1
+            key = (q, u(st.target))
+            reason = REVIEWED_PARAM_STORES.get(key)
+            ctx.analysed_functions.add(q)
+            ctx.ob(q, "param-store:%s" % u(st.target), reason is not None, fi.loc(st.stmt), "%s -- reviewed: %s" % (st.text()[:60], reason) if reason else "%s mutates an object owned by the caller (parameter `%s`): every later sample / block / chromosome sees the changed value, so the result depends on the visiting order" % (st.text()[:60], st.root))
+    ctx.require(n >= 4, "fewer than 4 parameter attribute stores seen (%d): scan broken" % n)
+    # sub-instances of polyphase work on a private copy of the parameters
+    pb = ctx.func("whatshap.polyphase.algorithm.phase_single_block")
+    sp = util.single_def(pb.node, "sub_param")
+    ok = sp is not None and u(sp) in ("copy(param)", "copy.copy(param)", "deepcopy(param)", "copy.deepcopy(param)")
+    stores = [s for s in util.store_sites(pb.node) if s.kind == "attr" and s.root == "sub_param"]
+    ctx.ob(pb.qual, "sub-instance-parameters-are-a-copy", ok and len(stores) >= 1, pb.loc(), "sub-instances modify sub_param = copy(param), never param itself" if ok else "sub_param is not a copy of param")
+
+
+def r6(ctx):
+    """Repetition: an output that the C++ side opens in append mode must be truncated by the Python side first."""
+    src = open(ctx.prog.real("src/caller.cpp"), encoding="utf-8", errors="replace").read()
+    ctx.analysed_files.add("src/caller.cpp")
+    appends = re.search(r"\.open\s*\([^;]*ios::app", src) is not None
+    fi = ctx.func("whatshap.cli.learn.run_learn")
+    cfg = ctx.cfg(fi)
+    truncs = [c for c in ctx.prog.calls_in(fi.node) if u(c.func) == "open" and len(c.args) >= 2 and u(c.args[0]) == "output" and isinstance(c.args[1], ast.Constant) and str(c.args[1].value).startswith("w")]
+    users = [c for c in ctx.prog.calls_in(fi.node) if isinstance(c.func, ast.Attribute) and c.func.attr in ("add_read", "final_pop")]
+    if not appends:
+        ctx.ob(fi.qual, "learn-output-not-appended", True, fi.loc(), "the C++ caller does not open its output in append mode")
+        return
+    ok = bool(truncs) and bool(users) and all(cfg.dominates(cfg.node_containing(truncs[0]), cfg.node_containing(c)) for c in users)
+    loops = [n for n in walk_function(fi.node) if isinstance(n, ast.For) and truncs and any(x is truncs[0] for x in ast.walk(n))]
+    ok = ok and not loops
+    ctx.ob(fi.qual, "learn-output-truncated-before-append", ok, fi.loc(truncs[0]) if truncs else fi.loc(), "src/caller.cpp appends to the output file; run_learn truncates it once before the first append, so a repeated run gives the same file" if ok else "src/caller.cpp opens the output with ios::app but run_learn does not truncate it first: running the command twice with the same -o doubles the file")
+
+
 RULES = [
     ("C16.R1", "order-taint: hash-ordered iteration must not reach an order-sensitive use", r1),
     ("C16.R2", "polyphase pool results aggregated in block order", r2),
     ("C16.R3", "total order on reads; duplicates rejected; positions sorted (clang)", r3),
     ("C16.R4", "no pointer-keyed containers in the C++ sources", r4),
+    ("C16.R5", "shared configuration objects are not mutated per sample/block", r5),
+    ("C16.R6", "append-mode outputs are truncated first (repetition)", r6),
 ]
-FLOORS = {"C16.R1": 10, "C16.R2": 6, "C16.R3": 6, "C16.R4": 1}
+FLOORS = {"C16.R1": 10, "C16.R2": 6, "C16.R3": 6, "C16.R4": 1, "C16.R5": 3, "C16.R6": 1}
